@@ -81,10 +81,25 @@ def handler(c):
     mc.context.rng = ScriptedRNG([c["u"]])
     crit = mc.moves["m"].criteria
     rep["criteria_class"] = type(crit).__name__
+
+    def params():
+        out = {}
+        for nm in ("temperature", "pressure", "external_stress", "chemical_potential", "number_of_exchange_particles", "accessible_volume"):
+            if hasattr(mc, nm):
+                out[nm] = np.array(getattr(mc, nm), dtype=float).tobytes().hex()
+        return out
+    before = params()
     try:
         rep["verdict"] = bool(crit.evaluate(mc.context))
     except Exception as e:  # noqa: BLE001
         rep["raised"] = type(e).__name__
+    # an acceptance test reads the parameters; it must not change them, and the same trial judged again gets the same verdict
+    rep["params_changed"] = sorted(k for k, v in params().items() if before.get(k) != v)
+    mc.context.rng = ScriptedRNG([c["u"]])
+    try:
+        rep["verdict_again"] = bool(crit.evaluate(mc.context))
+    except Exception as e:  # noqa: BLE001
+        rep["raised_again"] = type(e).__name__
     if kind == "tens" and hasattr(crit, "strain_tensor"):
         rep["strain"] = np.asarray(crit.strain_tensor).tolist()
     rep["E_new_seen"] = float(atoms.get_potential_energy())
